@@ -149,6 +149,43 @@ func iterationLaws(re *regexp2.Regexp, runes []rune, st func(string)) (detail, i
 			}
 		}
 	}
+	// matches handed to a ReplaceFunc evaluator stay valid after ReplaceFunc has returned and other
+	// calls have been made: their text, and the chain continued from them
+	if validRunes(runes) && len(chain) > 0 {
+		s := string(runes)
+		var kept []regexp2.Match
+		if _, err := re.ReplaceFunc(s, func(m regexp2.Match) string { kept = append(kept, m); return "" }, -1, -1); err == nil && len(kept) == len(chain) {
+			st("kept-evaluator-matches")
+			// other calls of the same size in between (pooled buffers get reused)
+			other := []rune(s)
+			for i := range other {
+				other[i] = other[(i*7+3)%len(other)]
+			}
+			re.MatchString(string(other))
+			re.FindAllStringIndex(string(other), -1)
+			re.Replace(string(other), "-", -1, 1)
+			for i := range kept {
+				want := string(runes[chain[i].Index : chain[i].Index+chain[i].Length])
+				if got := kept[i].String(); got != want {
+					return fmt.Sprintf("match #%d kept from the ReplaceFunc evaluator on %q reads %q after later calls, it matched %q", i, s, got, want), "", len(chain), zeroWidth
+				}
+				nm, err := re.FindNextMatch(&kept[i])
+				if err != nil {
+					if mon.ResourceErr(err) {
+						break
+					}
+					return "FindNextMatch on a kept evaluator match: " + err.Error(), "", len(chain), zeroWidth
+				}
+				wantNext := "nil"
+				if i+1 < len(chain) {
+					wantNext = chain[i+1].Text
+				}
+				if got := mon.ObsAll(nm); got != wantNext {
+					return fmt.Sprintf("FindNextMatch on match #%d kept from the ReplaceFunc evaluator on %q gives %s, the chain continues with %s", i, s, got, wantNext), "", len(chain), zeroWidth
+				}
+			}
+		}
+	}
 	return "", "", len(chain), zeroWidth
 }
 
